@@ -542,7 +542,7 @@ func c15API(c *Ctx, optName string, opts ...larking.MuxOption) {
 		zw := gzip.NewWriter(&zb)
 		for k := 0; k < nmsg; k++ {
 			fmt.Fprintf(zw, `{"name":"m%d"}`, k) // nothing after the closing brace: no partial message is pending
-			zw.Flush() //nolint
+			zw.Flush()                           //nolint
 			fmt.Fprintf(conn, "%x\r\n%s\r\n", zb.Len(), zb.Bytes())
 			zb.Reset()
 		}
